@@ -251,7 +251,7 @@ impl Explorer {
 
     /// The decision ladder for one formula on the current path (the context is still alive):
     /// identity, the path's own witness, intervals, order facts (lemma instances), solver.
-    fn ladder(&mut self, c: &Ctx, f: &Bx) -> (&'static str, String, Option<BTreeMap<String, String>>, Option<String>) {
+    fn ladder(&mut self, c: &Ctx, f: &Bx, allow_solver: bool) -> (&'static str, String, Option<BTreeMap<String, String>>, Option<String>) {
         let folded = f.fold_identity(c);
         if folded == Bx::T {
             return ("holds", "identity".into(), None, None);
@@ -264,6 +264,9 @@ impl Explorer {
         }
         if folded.iv_eval(c, true) == Some(true) {
             return ("holds", "order-lemmas".into(), None, None);
+        }
+        if !allow_solver {
+            return ("pending", "pending".into(), None, None);
         }
         // L4: bit-precise query  domains ∧ cone(PC[0..b)) ∧ ¬ob, where b is the number of decisions
         // taken before the newest code-built node of the obligation existed.  Dropping later
@@ -321,19 +324,26 @@ impl Explorer {
         }
     }
 
-    /// Decide one obligation: through its lemma premises if it has any, else directly.
-    fn decide_ob(&mut self, c: &Ctx, ob: &dag::Ob) -> ObReport {
+    /// Decide one obligation: through its lemma premises if it has any, else directly.  With `cheap` the solver
+    /// is not consulted (verdict "pending"): paths are enumerated first, solver time is spent afterwards.
+    fn decide_ob(&mut self, c: &Ctx, ob: &dag::Ob, cheap: bool) -> ObReport {
         let t0 = Instant::now();
         if let Some((lemma, prem)) = &ob.via {
             self.last_prefix = prem.bound(c).min(c.trace.len());
-            let (v, how, _, _) = self.ladder(c, prem);
+            // premises that state "the same term" are structural: they close by identity or not at all;
+            // only quantitative premises (bounds) are worth a query
+            let structural = matches!(lemma.as_str(), "same-term" | "pow2-scaling" | "affine-structure" | "shares-structure" | "recip");
+            let (v, how, _, _) = self.ladder(c, prem, !cheap && !structural);
             if v == "holds" {
                 return ObReport { name: ob.name.clone(), verdict: "holds".into(), how: format!("lemma:{}+{}", lemma, how), time_s: t0.elapsed().as_secs_f64(), cex: None, detail: None, prefix: self.last_prefix };
             }
+            if v == "pending" && !structural {
+                return ObReport { name: ob.name.clone(), verdict: "pending".into(), how: "pending".into(), time_s: 0.0, cex: None, detail: None, prefix: ob.direct.bound(c).max(prem.bound(c)).min(c.trace.len()) };
+            }
         }
         self.last_prefix = ob.direct.bound(c).min(c.trace.len());
-        let (v, how, cex, mut detail) = self.ladder(c, &ob.direct);
-        if v != "holds" {
+        let (v, how, cex, mut detail) = self.ladder(c, &ob.direct, !cheap);
+        if v != "holds" && v != "pending" {
             // the formula itself (depth-limited) is the explanation of what differs
             let f = ob.direct.fold_identity(c).show(c, 6);
             detail = Some(format!("{}{}", detail.map(|d| d + " | ").unwrap_or_default(), f.chars().take(700).collect::<String>()));
@@ -349,6 +359,7 @@ impl Explorer {
         let mut paths: Vec<PathReport> = vec![];
         let mut work: Vec<(StdMap<String, u32>, usize)> = vec![(StdMap::new(), 0)];
         let mut pool: Vec<StdMap<String, u32>> = vec![];
+        let mut later: Vec<(usize, Ctx, Vec<usize>)> = vec![];
         let q0 = self.solver.stats.clone();
         while let Some((witness, bound)) = work.pop() {
             if paths.len() >= self.opts.max_paths || t0.elapsed().as_secs_f64() > self.opts.budget_s {
@@ -377,25 +388,11 @@ impl Explorer {
             }
             let idx = paths.len();
             let mut obs = vec![];
-            for ob in &ctx.obs {
-                // beyond the unit's wall-clock budget the solver is no longer consulted
-                if t0.elapsed().as_secs_f64() > self.opts.budget_s {
-                    self.solver.timeout_s = 0;
-                    stats.truncated = true;
-                }
-                let r = self.decide_ob(&ctx, ob);
-                stats.ob_total += 1;
-                if let Some(l) = r.how.strip_prefix("lemma:") {
-                    *stats.lemmas_used.entry(l.split('+').next().unwrap().to_string()).or_insert(0) += 1;
-                }
-                match (r.verdict.as_str(), r.how.as_str()) {
-                    ("holds", "identity") => stats.ob_identity += 1,
-                    ("holds", "interval") => stats.ob_interval += 1,
-                    ("holds", "order-lemmas") => stats.ob_lemma += 1,
-                    ("holds", h) if h.starts_with("lemma:") && !h.contains("solver") => stats.ob_lemma += 1,
-                    ("holds", _) => stats.ob_solver += 1,
-                    ("violated", _) => stats.ob_violated += 1,
-                    _ => stats.ob_undecided += 1,
+            let mut pending: Vec<usize> = vec![];
+            for (oi, ob) in ctx.obs.iter().enumerate() {
+                let r = self.decide_ob(&ctx, ob, true);
+                if r.verdict == "pending" {
+                    pending.push(oi);
                 }
                 obs.push(r);
             }
@@ -541,6 +538,7 @@ impl Explorer {
             } else {
                 vec![]
             };
+            let keep = !pending.is_empty();
             paths.push(PathReport {
                 idx,
                 decisions: ctx.trace.len(),
@@ -552,6 +550,45 @@ impl Explorer {
                 obs,
                 pc,
             });
+            if keep {
+                later.push((idx, ctx, pending));
+            }
+        }
+        // phase 2: solver time for the obligations that the cheap rungs left open, within the unit's budget
+        self.solver.timeout_s = self.opts.timeout_s;
+        for (idx, ctx, pending) in &later {
+            for &oi in pending {
+                if t0.elapsed().as_secs_f64() > self.opts.budget_s {
+                    stats.truncated = true;
+                    let r = &mut paths[*idx].obs[oi];
+                    r.verdict = "undecided".into();
+                    r.how = "budget".into();
+                    r.detail = Some("unit budget exhausted before this obligation reached the solver".into());
+                    continue;
+                }
+                let r = self.decide_ob(ctx, &ctx.obs[oi], false);
+                paths[*idx].obs[oi] = r;
+            }
+            if paths[*idx].pc.is_empty() && paths[*idx].obs.iter().any(|o| o.verdict != "holds") {
+                paths[*idx].pc = ctx.trace.iter().map(|d| fmt_atom(ctx, d)).collect();
+            }
+        }
+        for p in &paths {
+            for r in &p.obs {
+                stats.ob_total += 1;
+                if let Some(l) = r.how.strip_prefix("lemma:") {
+                    *stats.lemmas_used.entry(l.split('+').next().unwrap().to_string()).or_insert(0) += 1;
+                }
+                match (r.verdict.as_str(), r.how.as_str()) {
+                    ("holds", "identity") => stats.ob_identity += 1,
+                    ("holds", "interval") => stats.ob_interval += 1,
+                    ("holds", "order-lemmas") => stats.ob_lemma += 1,
+                    ("holds", h) if h.starts_with("lemma:") && !h.contains("solver") => stats.ob_lemma += 1,
+                    ("holds", _) => stats.ob_solver += 1,
+                    ("violated", _) => stats.ob_violated += 1,
+                    _ => stats.ob_undecided += 1,
+                }
+            }
         }
         let q1 = &self.solver.stats;
         stats.paths = paths.len();
